@@ -80,6 +80,9 @@ def main():
         })
     na = [{'property_id': p, 'reason': 'check not built yet at this commit (planned with the same engine, see DESIGN.md §4)'}
           for p in ALL if p not in CLAIMED]
+    for c in checks:
+        if c['property_id'] in ('C15', 'C20'):
+            c['technique'] = TECH + '; cross-checked by Kani 0.68 / CBMC (second engine) on the same assertions'
     m = {
         'version': 1,
         'setup_cmd': './setup.sh',
@@ -90,7 +93,9 @@ def main():
             'source_commits': [],
             'add_only': True,
         },
-        'engines': [{'name': 'llsymex', 'path': 'lib/engine.py', 'serves_properties': sorted(CLAIMED),
+        'engines': [{'name': 'kani', 'path': 'kani/src/lib.rs', 'serves_properties': ['C15', 'C20'],
+                     'kind_free_text': 'Kani 0.68 / CBMC 6.11 proof harnesses over the public API, run by the C15 and C20 checks as a second, independent encoding'},
+                    {'name': 'llsymex', 'path': 'lib/engine.py', 'serves_properties': sorted(CLAIMED),
                      'kind_free_text': 'symbolic executor over rustc-emitted LLVM IR (crate + std via -Zbuild-std), z3 5.1 incremental + cvc5 int-blasting portfolio, native replay'}],
         'checks': checks,
         'not_applicable': na,
